@@ -67,8 +67,10 @@ def expected (limit passes n : Nat) : Option Nat :=
 /-- Read+Seek calls that `sent` ammo of an `n`-entry file may cost: up to three per ammo and per entry of one more
 pass (the raw decoder asks for the file position of every entry; preload reads the whole file whatever the limit),
 per pass one read per 512 bytes (the smallest buffer the decoders use) plus the
-end-of-file read, the seek and slack; three passes of slack; the constructor's reads -/
-def opsBound (sent n pad : Nat) : Nat := 3 * (sent + n) + (sent / n + 3) * ((n * (pad + 256)) / 512 + 4) + 8
+end-of-file read, the seek and slack, plus two per line that is not an entry (the raw decoder asks for the file
+position of blank lines too; the harness' files have at most n + 7 such lines); three passes of slack; the
+constructor's reads -/
+def opsBound (sent n pad : Nat) : Nat := 3 * (sent + n) + (sent / n + 3) * ((n * (pad + 256)) / 512 + 2 * n + 18) + 8
 
 /-- what a drain cell has to deliver: `min(cap, M)`, `cap = 0` = nobody cancels (such a cell must be bounded) -/
 def want (c : Cell) : Nat :=
